@@ -477,11 +477,7 @@ func runFoSchedule(t *testing.T, cfg FoCfg, bi int, b []foStepJ, seed int64) (ou
 	mustNoErr(err, "keymap")
 
 	// Equal-length concrete keys so that the caller can overwrite its buffer with another live key.
-	for i, k := range cfg.Keys {
-		real := []byte(fmt.Sprintf("key-%02d-%04x", i, (seed*7919+int64(i)*104729)&0xffff))
-		km.ByModel[k] = real
-		km.ByReal[string(real)] = k
-	}
+	foKeys(cfg, km, seed, 0)
 
 	s := newSched(km, cfg.unit(), cfg.Keys)
 	s.steer = true
@@ -626,11 +622,7 @@ func runFoWalk(t *testing.T, cfg FoCfg, wi int, seed int64, maxFaults, maxFails,
 	km, err := NewKeyMap(seed, false, nil)
 	mustNoErr(err, "keymap")
 
-	for i, k := range cfg.Keys {
-		real := []byte(fmt.Sprintf("key-%02d-%04x", i, (seed*7919+int64(i)*104729)&0xffff))
-		km.ByModel[k] = real
-		km.ByReal[string(real)] = k
-	}
+	foKeys(cfg, km, seed, 0)
 
 	s := newSched(km, cfg.unit(), cfg.Keys)
 	s.steer = true
@@ -908,11 +900,8 @@ func TestFoFree(t *testing.T) {
 		km, err := NewKeyMap(seed+int64(ri), false, nil)
 		mustNoErr(err, "keymap")
 
-		for i, k := range cfg.Keys {
-			real := []byte(fmt.Sprintf("key-%02d-%04x", i, (seed*7919+int64(ri)*31+int64(i)*104729)&0xffff))
-			km.ByModel[k] = real
-			km.ByReal[string(real)] = k
-		}
+		cfg.Collide = ri%3 == 0 && cfg.FailTTL == -1 // the failure cache is a ShardedMap: colliding keys would share its slot
+		foKeys(cfg, km, seed, int64(ri))
 
 		if small {
 			cfg.StatOn, cfg.LogOn = false, false
